@@ -39,10 +39,12 @@ def run(tier, replay):
                 jobs.append((exes[2], ["rt", T, 0, 4 * 32 + 17, 1, "rot"]))
             jobs.append((exes[2], ["rt", 16, 0, 4 * 32 + 17, 7, "rot"]))
             jobs.append((exes[2], ["rt", 3, 28, 36, 1, "all"]))
+            jobs += [(exes[2], ["ff", T]) for T in (1, 2)]
         else:
             for b in (2, 3):
                 for T in (1, 2, 3, 4, 16):
                     jobs.append((exes[b], ["rt", T, 0, 4 * 16 * b + 17, 1, "all" if T in (2, 3) and b == 2 else "rot"]))
+                    jobs.append((exes[b], ["ff", T]))
         with cf.ThreadPoolExecutor(8) as ex:
             parts = list(ex.map(lambda j: wv.record(res, PID + "/j%d" % j[0], [j[1]]), enumerate(jobs)))
         events = [consts]
